@@ -100,6 +100,29 @@ def extra_failures(tmp):
     if np.nanmax(np.abs(b1 - bkg)) > 0.5 * 3.0 or np.nanmax(np.abs(r1 - rms)) > 0.5 * 3.0:
         out.append(("stripe_count_sensitivity", "1 vs 2 stripes differ by %.3f (bkg) %.3f (rms) for sigma=3" % (
             np.nanmax(np.abs(b1 - bkg)), np.nanmax(np.abs(r1 - rms)))))
+    # cubes: plane k of a 3-D (n, R, C) or 4-D (m, n, R, C) file is filtered like the 2-D image of that plane
+    planes = rng.normal(size=(3, 60, 50)) + np.arange(3)[:, None, None] * 5.0
+    ref = [run_bane(tmp, planes[k], 10, 30, 1, 1, name="p%d.fits" % k) for k in range(3)]
+    for name, data, pick in (("3-D", planes, lambda k: planes[k]), ("4-D", np.stack([planes, planes + 100.0]), lambda k: planes[k])):
+        path = os.path.join(tmp, "cube_%s.fits" % name)
+        fits.PrimaryHDU(data.astype(np.float64)).writeto(path, overwrite=True)
+        for k in range(3):
+            try:
+                b, r = BANE.filter_mc_sharemem(path, (10, 10), (30, 30), 1, (60, 50), nslice=1, domask=True, cube_index=k)
+            except Exception as e:
+                out.append(("sigma_filter.plane_selected_by_cube_index", "%s file, cube_index=%d raised %r" % (name, k, e)))
+                break
+            if not np.allclose(b, ref[k][0], rtol=1e-6, atol=1e-6, equal_nan=True) or not np.allclose(r, ref[k][1], rtol=1e-6, atol=1e-6, equal_nan=True):
+                out.append(("sigma_filter.plane_selected_by_cube_index",
+                            "%s file, cube_index=%d: maps differ from those of plane %d (median bkg %.2f vs %.2f)" % (
+                                name, k, k, np.nanmedian(b), np.nanmedian(ref[k][0]))))
+                break
+    # a negative BSCALE: the noise map is |k| times the noise of the stored values, never negative
+    b0, r0 = run_bane(tmp, planes[0], 10, 30, 1, 1, name="bs0.fits")
+    bn, rn = run_bane(tmp, planes[0], 10, 30, 1, 1, header={'BSCALE': -2.0}, name="bs.fits")
+    if np.nanmin(rn) < 0 or not np.allclose(rn, 2.0 * r0, rtol=1e-5, atol=1e-8, equal_nan=True) or \
+            not np.allclose(bn, -2.0 * b0, rtol=1e-5, atol=1e-6, equal_nan=True):
+        out.append(("sigma_filter.bscale_applied_iff_present", "BSCALE=-2: min rms %.3f, expected |k| * rms and k * bkg" % np.nanmin(rn)))
     return out
 
 
